@@ -705,7 +705,7 @@ theorem C05_nested_rebuild (w : KWorld) (cf : Path) (name : String) (versions : 
   have hcached := cachedIn_nested ops hok (hanti.imp (fun h => h.1)) hkeys hrefl
     (writtenRec name versions ops s2 cds) rfl
   have hsecond := nested_second_run prog none _ _ s2 hold0 hsame
-    (fun f => by
+    (fun f _ => by
       show isEqual (verOf (writtenRec name versions ops s2 cds).versions f) (verOf versions f) = true
       exact hver f)
     (by rw [hr2]; exact hok)
